@@ -1,2 +1,151 @@
 """Self-test catalogue, properties C15-C20."""
-VARIANTS = []
+from . import Variant
+
+F, H, C, I, K, P, IT, A, MC, CV = ("gffutils/feature.py", "gffutils/helpers.py", "gffutils/create.py", "gffutils/interface.py",
+                                   "gffutils/constants.py", "gffutils/parser.py", "gffutils/iterators.py", "gffutils/attributes.py",
+                                   "gffutils/merge_criteria.py", "gffutils/convert.py")
+
+
+def M(pid, name, file, old, new, rule=None):
+    return Variant(pid, name, "mutant", [(file, old, new)], rule)
+
+
+def MM(pid, name, edits, rule=None):
+    return Variant(pid, name, "mutant", edits, rule)
+
+
+def T(pid, name, *edits):
+    return Variant(pid, name, "twin", list(edits))
+
+
+VARIANTS = [
+    # ------------------------------------------------------------------ C15
+    M("C15", "start-not-advanced", I, '            d["start"] += 1\n            d["end"] -= 1', '            d["end"] -= 1', "R1"),
+    M("C15", "suppress-one-base-gaps", I, '            if d["start"] > d["end"]:\n                return None', '            if d["start"] >= d["end"]:\n                return None', "R2"),
+    M("C15", "gap-ends-at-next-end", I, '            interfeature["end"] = f.start', '            interfeature["end"] = f.end', "R1"),
+    M("C15", "strand-test-inverted", I, "            if last_feature.strand != f.strand:", "            if last_feature.strand == f.strand:", "R4"),
+    MM("C15", "minus-labels-swapped", [
+        (I, '                if side == "left":\n                    if strand == "+":\n                        new_featuretype = "five_prime_cis_splice_site"\n                    elif strand == "-":\n                        new_featuretype = "three_prime_cis_splice_site"',
+         '                if side == "left":\n                    if strand == "+":\n                        new_featuretype = "five_prime_cis_splice_site"\n                    elif strand == "-":\n                        new_featuretype = "five_prime_cis_splice_site"')], "R6"),
+    M("C15", "splice-site-three-bases", I, "                        splice_site.end = splice_site.start + 1", "                        splice_site.end = splice_site.start + 2", "R6"),
+    M("C15", "introns-by-end-order", I, '            exons = self.children(\n                child, level=1, featuretype=exon_featuretype, order_by="start"\n            )\n            for intron in self.interfeatures(',
+      '            exons = self.children(\n                child, level=1, featuretype=exon_featuretype, order_by="end"\n            )\n            for intron in self.interfeatures(', "R7"),
+    M("C15", "introns-level-2", I, '            exons = self.children(\n                child, level=1, featuretype=exon_featuretype, order_by="start"\n            )\n            for intron in self.interfeatures(',
+      '            exons = self.children(\n                child, level=2, featuretype=exon_featuretype, order_by="start"\n            )\n            for intron in self.interfeatures(', "R7"),
+    M("C15", "nfeatures-not-reset", I, "                yield new_feature\n            nfeatures = 1\n\n            last_feature = f", "                yield new_feature\n\n            last_feature = f", "R3"),
+    M("C15", "seqid-change-falls-through", I, "                interfeature = _init_interfeature(f)\n                last_feature = f\n                nfeatures = 1\n                continue\n\n            # Otherwise, we've already seen",
+      "                interfeature = _init_interfeature(f)\n                nfeatures = 1\n\n            # Otherwise, we've already seen", "R3"),
+    M("C15", "id-joined-by-comma", I, '                new_id = "-".join(new_feature.attributes["ID"])', '                new_id = ",".join(new_feature.attributes["ID"])', "R5"),
+    M("C15", "previous-not-advanced", I, "            nfeatures = 1\n\n            last_feature = f\n", "            nfeatures = 1\n\n", "R1"),
+    M("C15", "attributes-of-next-only", I, "                    attribute_func(last_feature.attributes),\n                    attribute_func(f.attributes),", "                    attribute_func(f.attributes),\n                    attribute_func(f.attributes),", "R5"),
+    M("C15", "input-mutated", I, "            interfeature[\"attributes\"] = new_attributes\n", "            interfeature[\"attributes\"] = new_attributes\n            f.attributes[\"seen\"] = [\"1\"]\n", "R8"),
+    T("C15", "offsets-at-assignment", (I, '            interfeature["start"] = last_feature.stop\n            interfeature["end"] = f.start', '            interfeature["start"] = last_feature.stop + 1\n            interfeature["end"] = f.start - 1'),
+      (I, '            d["start"] += 1\n            d["end"] -= 1\n', "")),
+    T("C15", "labels-from-dict", (I, '''                new_featuretype = "splice_site"
+                if side == "left":
+                    if strand == "+":
+                        new_featuretype = "five_prime_cis_splice_site"
+                    elif strand == "-":
+                        new_featuretype = "three_prime_cis_splice_site"
+
+                if side == "right":
+                    if strand == "+":
+                        new_featuretype = "three_prime_cis_splice_site"
+                    elif strand == "-":
+                        new_featuretype = "five_prime_cis_splice_site"
+''', '''                new_featuretype = {
+                    ("left", "+"): "five_prime_cis_splice_site",
+                    ("left", "-"): "three_prime_cis_splice_site",
+                    ("right", "+"): "three_prime_cis_splice_site",
+                    ("right", "-"): "five_prime_cis_splice_site",
+                }.get((side, strand), "splice_site")
+''')),
+    # ------------------------------------------------------------------ C16
+    M("C16", "head-not-copied", I, "                if len(feature_children) == 1:\n                    # Current merged is only child", "                if len(feature_children) == -1:\n                    # Current merged is only child", "R4"),
+    M("C16", "end-shrinks", I, "                if feature.end > current_merged.end:", "                if feature.end < current_merged.end:", "R3"),
+    M("C16", "id-not-reset-on-boundary", I, "                yield _finalize_merge(current_merged, feature_children)\n                current_merged = feature\n                feature_children = []\n                last_id = None",
+      "                yield _finalize_merge(current_merged, feature_children)\n                current_merged = feature\n                feature_children = []", "R5"),
+    M("C16", "pending-head-dropped", I, "                yield _finalize_merge(current_merged, feature_children)\n                current_merged = feature\n                feature_children = []\n                last_id = None",
+      "                current_merged = feature\n                feature_children = []\n                last_id = None", "R1"),
+    M("C16", "adjacent-not-merged", MC, "def overlap_end_inclusive(acc, cur, components):\n    return acc.start <= cur.start <= acc.end + 1", "def overlap_end_inclusive(acc, cur, components):\n    return acc.start <= cur.start <= acc.end", "R2"),
+    M("C16", "merge-all-level-2", I, "self.add_relation(merged, child, 1, child_func=assign_child)", "self.add_relation(merged, child, 2, child_func=assign_child)", "R7"),
+    M("C16", "splat-keeps-dialect", I, '                    del current_merged["dialect"]\n', "", "R6"),
+    M("C16", "splat-keeps-children", I, '                    current_merged.pop("children", None)\n', "", "R6"),
+    M("C16", "children-not-reset", I, "                yield _finalize_merge(current_merged, feature_children)\n                current_merged = feature\n                feature_children = []\n                last_id = None",
+      "                yield _finalize_merge(current_merged, feature_children)\n                current_merged = feature\n                last_id = None", "R1"),
+    M("C16", "criteria-args-swapped", I, "                criteria(current_merged, feature, feature_children)\n                for criteria in merge_criteria\n            ):\n                # Criteria satisfied, merge",
+      "                criteria(feature, current_merged, feature_children)\n                for criteria in merge_criteria\n            ):\n                # Criteria satisfied, merge", "R1"),
+    M("C16", "any-criterion-suffices", I, "            if all(\n                criteria(current_merged, feature, feature_children)", "            if any(\n                criteria(current_merged, feature, feature_children)", "R1"),
+    M("C16", "final-head-not-emitted", I, "        if current_merged:\n            yield _finalize_merge(current_merged, feature_children)\n", "        if current_merged and feature_children:\n            yield _finalize_merge(current_merged, feature_children)\n", "R1"),
+    M("C16", "len-without-plus-one", F, "        return self.stop - self.start + 1", "        return self.stop - self.start", "R8"),
+    M("C16", "default-criteria-no-strand", I, "        features,\n        merge_criteria=(mc.seqid, mc.overlap_end_inclusive, mc.strand, mc.feature_type),", "        features,\n        merge_criteria=(mc.seqid, mc.overlap_end_inclusive, mc.feature_type),", "R2"),
+    M("C16", "strand-criterion-on-seqid", MC, "def strand(acc, cur, components):\n    return acc.strand == cur.strand", "def strand(acc, cur, components):\n    return acc.seqid == cur.seqid", "R2"),
+    M("C16", "merge-all-keeps-when-excluding", I, "                    if exclude_components:\n                        # Remove child features from DB\n                        self.delete(merged.children)", "                    if exclude_components:\n                        pass", "R7"),
+    T("C16", "extents-by-min-max", (I, "                if feature.start < current_merged.start:\n                    # Extends prior, so set a new start position\n                    current_merged.start = feature.start",
+                                    "                current_merged.start = min(current_merged.start, feature.start)"),
+      (I, "                if feature.end > current_merged.end:\n                    # Extends further, so set a new stop position\n                    current_merged.end = feature.end",
+       "                current_merged.end = max(current_merged.end, feature.end)")),
+    T("C16", "children-pop-via-del-guard", (I, '                    current_merged.pop("children", None)\n', '                    if "children" in current_merged:\n                        del current_merged["children"]\n')),
+    # ------------------------------------------------------------------ C17
+    M("C17", "store-before-wrap", A, "        if not isinstance(v, (list, tuple)):\n            v = [v]\n        self._d[k] = v", "        self._d[k] = v\n        if not isinstance(v, (list, tuple)):\n            v = [v]", "R1"),
+    M("C17", "raw-mapping-write", A, "        for k, v in dict(*args, **kwargs).items():\n            self[k] = v", "        self._d.update(dict(*args, **kwargs))", "R1"),
+    M("C17", "jsonify-through-items", H, 'return json.dumps(x._d, separators=(",", ":"))', 'return json.dumps(dict(x.items()), separators=(",", ":"))', "R3"),
+    M("C17", "second-arg-not-copied", H, "    new_d.update(copy.deepcopy(attr2))", "    new_d.update(attr2)", "R4"),
+    M("C17", "union-with-repeats", H, "        return dict((k, sorted(set(v))) for k, v in new_d.items())", "        return dict((k, sorted(v)) for k, v in new_d.items())", "R4"),
+    M("C17", "equality-on-id", F, "        return str(self) == str(other)", "        return self.id == other.id", "R5"),
+    M("C17", "switch-read-on-set", A, "        if not isinstance(v, (list, tuple)):\n            v = [v]\n        self._d[k] = v", "        if not isinstance(v, (list, tuple)) and constants.always_return_list:\n            v = [v]\n        self._d[k] = v", "R2"),
+    M("C17", "view-unwraps-always", A, "        if isinstance(v, list) and len(v) == 1:\n            v = v[0]", "        if isinstance(v, list) and len(v) >= 1:\n            v = v[0]", "R2"),
+    M("C17", "hash-of-id", F, "        return hash(str(self))", "        return hash(self.id)", "R5"),
+    M("C17", "feature-setitem-bypasses", F, "        else:\n            self.attributes[key] = value", "        else:\n            self.attributes._d[key] = value", "R1"),
+    M("C17", "first-arg-mutated", H, "            if not isinstance(v, list):\n                v = [v]\n            new_d[k].extend(v)", "            if not isinstance(v, list):\n                v = [v]\n            v.extend(new_d[k])\n            new_d[k] = v", "R4"),
+    M("C17", "bed12-leaves-switch", I, "        constants.always_return_list = orig\n", "", "R2"),
+    T("C17", "wrap-types-reordered", (A, "if not isinstance(v, (list, tuple)):", "if not isinstance(v, (tuple, list)):")),
+    # ------------------------------------------------------------------ C18
+    M("C18", "chromstart-one-based", I, "        chromStart = feature.start - 1", "        chromStart = feature.start", "R1"),
+    M("C18", "block-starts-shifted", I, "blockStarts = [i.start - 1 - chromStart for i in exons]", "blockStarts = [i.start - chromStart for i in exons]", "R1"),
+    M("C18", "sequence-slice-one-based", F, "seq = fasta[self.chrom][self.start - 1 : self.stop]", "seq = fasta[self.chrom][self.start : self.stop]", "R1"),
+    M("C18", "len-off-by-one", F, "        return self.stop - self.start + 1", "        return self.stop - self.start", "R1"),
+    M("C18", "thick-fields-swapped", I, "            thickStart,\n            thickEnd,\n            itemRgb,", "            thickEnd,\n            thickStart,\n            itemRgb,", "R2"),
+    M("C18", "span-check-weakened", I, "        if first != feature.start:", "        if first < feature.start:", "R3"),
+    M("C18", "revcomp-plus", F, '        if use_strand and self.strand == "-":', '        if use_strand and self.strand == "+":', "R5"),
+    M("C18", "id-used-before-lookup", I, "        feature = self[feature]\n        exons = list(\n            self.children(feature, featuretype=block_featuretype, order_by=\"start\")\n        )\n        if len(exons) == 0:\n            exons = [feature]\n",
+      "        exons = list(\n            self.children(feature, featuretype=block_featuretype, order_by=\"start\")\n        )\n        if len(exons) == 0:\n            exons = [feature]\n        feature = self[feature]\n", "R4"),
+    M("C18", "thickend-exclusive-twice", I, "                thickEnd = thick[-1].stop\n", "                thickEnd = thick[-1].stop - 1\n", "R1"),
+    M("C18", "blocks-descending", I, '            self.children(feature, featuretype=block_featuretype, order_by="start")\n        )\n        if len(exons) == 0:',
+      '            self.children(feature, featuretype=block_featuretype, order_by="start", reverse=True)\n        )\n        if len(exons) == 0:', "R1"),
+    M("C18", "revcomp-ignores-flag", F, '        if use_strand and self.strand == "-":', '        if self.strand == "-":', "R5"),
+    M("C18", "to-bed12-start-one-based", CV, "        f.start - 1,  # GTF -> BED coord system", "        f.start,  # GTF -> BED coord system", "R1"),
+    M("C18", "space-joined", I, '        return "\\t".join(map(str, fields))\n\n    def seqids', '        return " ".join(map(str, fields))\n\n    def seqids', "R2"),
+    T("C18", "block-starts-from-feature-start", (I, "blockStarts = [i.start - 1 - chromStart for i in exons]", "blockStarts = [i.start - feature.start for i in exons]")),
+    T("C18", "revcomp-test-reordered", (F, '        if use_strand and self.strand == "-":', '        if self.strand == "-" and use_strand:')),
+    # ------------------------------------------------------------------ C19
+    M("C19", "create-if-not-exists", K, "CREATE TABLE features (", "CREATE TABLE IF NOT EXISTS features (", "R1"),
+    M("C19", "populate-before-schema", C, "        self._init_tables()\n        self._populate_from_lines(self.iterator)", "        self._populate_from_lines(self.iterator)\n        self._init_tables()", "R1"),
+    M("C19", "unlink-unconditional", C, "        if force:\n            if os.path.exists(dbfn):", "        if force or merge_strategy == \"replace\":\n            if os.path.exists(dbfn):", "R2"),
+    M("C19", "region-caches-with-insert", I, "        c.execute(query, tuple(args))\n        for i in c:\n            yield self._feature_returner(**i)\n\n    def interfeatures",
+      "        c.execute(query, tuple(args))\n        c.execute(\"INSERT INTO directives VALUES (?)\", (query,))\n        for i in c:\n            yield self._feature_returner(**i)\n\n    def interfeatures", "R3"),
+    M("C19", "reader-writes", I, '        return self._relation(\n            id,\n            join_on="child",', '        self.analyze()\n        return self._relation(\n            id,\n            join_on="child",', "R3"),
+    M("C19", "getitem-commits", I, "        results = c.fetchone()\n        # TODO: raise error if more than one key is found", "        results = c.fetchone()\n        self.conn.commit()\n        # TODO: raise error if more than one key is found", "R3"),
+    M("C19", "schema-error-swallowed", C, "        c.executescript(constants.SCHEMA)\n        self.conn.commit()", "        try:\n            c.executescript(constants.SCHEMA)\n        except sqlite3.OperationalError:\n            pass\n        self.conn.commit()", "R1"),
+    M("C19", "connect-before-unlink", C, "        if force:\n            if os.path.exists(dbfn):\n                os.unlink(dbfn)\n        self.dbfn = dbfn\n        self.id_spec = id_spec\n        if isinstance(dbfn, str):\n            conn = sqlite3.connect(dbfn)\n        else:\n            conn = dbfn\n",
+      "        self.dbfn = dbfn\n        self.id_spec = id_spec\n        if isinstance(dbfn, str):\n            conn = sqlite3.connect(dbfn)\n        else:\n            conn = dbfn\n        if force:\n            if os.path.exists(dbfn):\n                os.unlink(dbfn)\n", "R2"),
+    M("C19", "merge-persists-counters", I, "                        self._autoincrements[current_merged.featuretype] += 1\n", "                        self._autoincrements[current_merged.featuretype] += 1\n                        self.conn.execute(\"INSERT OR REPLACE INTO autoincrements VALUES (?, ?)\", (current_merged.featuretype, 1))\n", "R3"),
+    M("C19", "schema-drops-first", K, 'SCHEMA = """\n\nCREATE TABLE features (', 'SCHEMA = """\nDROP TABLE IF EXISTS features;\n\nCREATE TABLE features (', "R1"),
+    T("C19", "listing-through-helper", (I, '        c = self.conn.cursor()\n        c.execute(\n            """\n            SELECT DISTINCT featuretype from features\n            """\n        )\n        for (i,) in c:\n            yield i\n',
+                                        '        for i in self._distinct("featuretype"):\n            yield i\n\n    def _distinct(self, column):\n        c = self.conn.cursor()\n        c.execute("SELECT DISTINCT %s from features" % column)\n        for (i,) in c:\n            yield i\n')),
+    # ------------------------------------------------------------------ C20
+    M("C20", "fixed-temp-name", C, "        tmp = tempfile.NamedTemporaryFile(delete=False, suffix=suffix).name\n        with open(tmp, \"w\") as fout:\n\n            # Here we look",
+      "        tmp = os.path.join(tempfile.gettempdir(), \"gffutils.tmp\")\n        with open(tmp, \"w\") as fout:\n\n            # Here we look", "R1"),
+    M("C20", "gtf-tempfile-kept", C, "        if not self._keep_tempfiles:\n            os.unlink(fout.name)\n\n        # TODO: recreate indexes?", "        # TODO: recreate indexes?", "R2"),
+    M("C20", "keep-test-inverted", C, "        if not self._keep_tempfiles:\n            os.unlink(fout.name)\n\n\nclass _GTFDBCreator", "        if self._keep_tempfiles:\n            os.unlink(fout.name)\n\n\nclass _GTFDBCreator", "R2"),
+    M("C20", "early-return-before-unlink", C, "        self.conn.commit()\n\n        if not self._keep_tempfiles:\n            os.unlink(fout.name)\n\n\nclass _GTFDBCreator",
+      "        self.conn.commit()\n        if self.verbose == \"debug\":\n            return\n\n        if not self._keep_tempfiles:\n            os.unlink(fout.name)\n\n\nclass _GTFDBCreator", "R2"),
+    M("C20", "side-file-next-to-db", C, "        self.warnings = self.iterator.warnings\n", "        self.warnings = self.iterator.warnings\n        with open(str(self.dbfn) + \".log\", \"w\") as log:\n            log.write(\"done\")\n"),
+    M("C20", "string-tempfile-kept", IT, "            weakref.finalize(iterator, _remove_tempfile, tmp.name)\n", "", "R2"),
+    M("C20", "module-level-cache", C, "        self._data = data\n", "        self._data = data\n        constants.INDEXES = []\n", "R3"),
+    M("C20", "gtf-temp-in-cwd", C, "        tmp = tempfile.NamedTemporaryFile(delete=False, suffix=suffix).name\n        with open(tmp, \"w\") as fout:\n            self._tmpfile = tmp",
+      "        tmp = tempfile.NamedTemporaryFile(delete=False, suffix=suffix, dir=\".\").name\n        with open(tmp, \"w\") as fout:\n            self._tmpfile = tmp", "R1"),
+    T("C20", "unlink-in-finally", (C, "        self.conn.commit()\n\n        if not self._keep_tempfiles:\n            os.unlink(fout.name)\n\n\nclass _GTFDBCreator",
+                                   "        try:\n            self.conn.commit()\n        finally:\n            if not self._keep_tempfiles:\n                os.unlink(fout.name)\n\n\nclass _GTFDBCreator")),
+    T("C20", "remove-instead-of-unlink", (C, "        if not self._keep_tempfiles:\n            os.unlink(fout.name)\n\n        # TODO: recreate indexes?", "        if not self._keep_tempfiles:\n            os.remove(fout.name)\n\n        # TODO: recreate indexes?")),
+]
